@@ -41,10 +41,26 @@ class EvSim(simncp.SimNcp):
         self.cur = None       # current op plan
         self.issue_time = None
         self.net_state = 0
+        self.scan_active = False
+        self.second_mode = None
 
     def _arm(self, name):
         op = self.cur
+        if name == "startScan" and self.issue_time is not None and op.get("overlap") is not None:
+            # a second scan request: refused while the first scan is still running (the NCP runs one at a time); accepted
+            # once that one has completed, and then it produces one result of its own and a completion
+            if self.scan_active:
+                self.second_mode = "refused"
+                return {"status": "ERR"}
+            self.second_mode = "accepted"
+            rk = "eresult" if op["op"] == "escan" else "nresult"
+            self.loop.call_later(0.02, self._event, [0, rk, 26, -1 if rk == "eresult" else 1])
+            self.loop.call_later(0.04, self._event, [0, "complete", 26, "OK"])
+            return {"status": "OK"}
         self.issue_time = self.loop.time()
+        if name == "startScan":
+            self.scan_active = op["resp"] == "OK"
+            self.second_mode = None
         for ev in op["events"]:
             self.loop.call_later(ev[0], self._event, ev)
         if op["resp"] == "none":
@@ -66,6 +82,7 @@ class EvSim(simncp.SimNcp):
                                       allowingJoin=1, stackProfile=2, nwkUpdateId=0)
             self.callback("networkFoundHandler", {"networkFound": nw, "lastHopLqi": ev[3] & 0xFF, "lastHopRssi": -40}, 0)
         elif kind == "complete":
+            self.scan_active = False
             self.callback("scanCompleteHandler", {"channel": ev[2], "status": ev[3]}, 0)
 
     def cmd_formNetwork(self, parameters):
@@ -170,7 +187,8 @@ async def scenario(loop, plan, r):
         kind = op["op"]
         sim.cur = op
         sim.issue_time = None
-        sim.net_state = 2 if op.get("joined") else 0  # JOINED_NETWORK / NO_NETWORK
+        # EmberNetworkStatus: 0 NO_NETWORK, 1 JOINING, 2 JOINED, 3 JOINED_NO_PARENT, 4 LEAVING - only "joined" needs no bring-up
+        sim.net_state = 2 if op.get("joined") else op.get("state", 0)
         for ev in op.get("pre", []):
             sim._event(ev)
             await asyncio.sleep(0.002)
@@ -209,6 +227,13 @@ async def scenario(loop, plan, r):
             if t_rm is not None:
                 loop.call_at(t0 + t_rm, _rm)
         task = asyncio.ensure_future(coro)
+        second = None
+        if op.get("overlap") is not None and kind in ("escan", "ascan"):
+            async def later():
+                await asyncio.sleep(op["overlap"])
+                return await ezsp.startScan(scanType=t.EzspNetworkScanType.ENERGY_SCAN if kind == "escan" else t.EzspNetworkScanType.ACTIVE_SCAN,
+                                            channelMask=t.Channels.ALL_CHANNELS, duration=2)
+            second = asyncio.ensure_future(later())
         if op.get("cancel") is not None:
             # cancellation is relative to the issue instant (the request is seen ~immediately)
             delay = op["cancel"] + (0.001 if kind == "ensure" and not op.get("joined") else 0)
@@ -276,6 +301,32 @@ async def scenario(loop, plan, r):
             flags.add("outcome:" + got[0])
         # let every scheduled event land, then look for leaked listeners
         await asyncio.sleep(last_ev)
+        if second is not None:
+            flags.add("overlapping-scan-request")
+            if not second.done():
+                r.bad("C17:refused-overlapping-scan-hangs", f"{where}: the second scan request, refused by the NCP, is still pending; plan {plan}")
+                second.cancel()
+                return
+            ok2 = not second.cancelled() and second.exception() is None
+            if sim.second_mode == "refused" and ok2:
+                r.bad("C17:refused-overlapping-scan-returned-results", f"{where}: the NCP refused the second scan request, yet it returned "
+                      f"{second.result()!r}; plan {plan}")
+                return
+            comp1 = [e_[0] for e_ in op["events"] if e_[1] == "complete"]
+            if sim.second_mode == "accepted" and comp1 and comp1[0] <= op["t_r"] + 1e-6:
+                # the first scan's completion overtook its own response while the second request was queued behind it: the
+                # callbacks carry no identifier, so whose completion that was cannot be told - not judged
+                flags.add("ambiguous-overlap")
+            elif sim.second_mode == "accepted":
+                flags.add("second-scan-after-first-completed")
+                want2 = [(26, -1)] if kind == "escan" else [(26, 1)]
+                got2 = None
+                if ok2:
+                    got2 = [(int(a), int(b)) for a, b in second.result()] if kind == "escan" else [(int(nw.channel), int(lqi)) for nw, lqi, rssi in second.result()]
+                if got2 != want2:
+                    r.bad("C17:scan-results-differ:second-scan", f"{where}: the second scan was accepted after the first had completed and "
+                          f"produced {want2}; it returned {got2 if ok2 else second.exception()!r}; plan {plan}")
+                    return
         for j, d in enumerate(foreign):
             d["rm"]()
             if d.get("exc"):
@@ -359,6 +410,8 @@ def op_plan(draw):
         op["foreign"] = fg
     if kind == "ensure":
         op["joined"] = draw(st.integers(0, 5)) == 0
+        if not op["joined"]:
+            op["state"] = draw(st.sampled_from([0, 0, 0, 1, 3, 4]))
     if kind in ("form", "leave", "ensure"):
         match = MATCH[kind]
         other = ["NETWORK_DOWN" if match == "NETWORK_UP" else "NETWORK_UP", "ERR", "NOT_JOINED"]
@@ -377,6 +430,8 @@ def op_plan(draw):
         for _ in range(draw(st.integers(0, 2))):
             op["pre"].append([0, rk, draw(st.integers(11, 26)), draw(st.integers(-100, 10) if kind == "escan" else st.integers(0, 255))])
         has_cancel = draw(st.integers(0, 5)) == 0
+        if op["resp"] == "OK" and not has_cancel and draw(st.integers(0, 3)) == 0:
+            op["overlap"] = draw(st.sampled_from([0.0031, 0.0561, 0.5011, 3.2011]))
         if not has_cancel or draw(st.booleans()):
             tt = t_new()
             op["events"].append([tt, "complete", draw(st.integers(11, 26)), draw(st.sampled_from(["OK", "OK", "OK", "ERR"]))])
